@@ -74,6 +74,8 @@ func (o cOp) String() string {
 		return "GETATTR of every extra file"
 	case "createlong":
 		return fmt.Sprintf("CREATE %s/<300-byte name>", d[o.Dir])
+	case "renamelong":
+		return fmt.Sprintf("RENAME %s/%s -> %s/<200-byte name>", d[o.Dir], o.Name, d[o.Dir])
 	case "writeh":
 		return fmt.Sprintf("WRITE fh=%x off=%d len=%d tag=%x stable=%d", trimBytes([]byte(o.H), 16), o.Off, len(o.Data), tagOf([]byte(o.Data)), o.Stable)
 	case "readh":
@@ -220,7 +222,7 @@ func cStep(s cState, o cOp, r cRes) (bool, cState) {
 			n.HFiles[r.Handle] = cFile{}
 		}
 		return true, n
-	case "createlong":
+	case "createlong", "renamelong":
 		return !r.OK, s // a name beyond the limit: refused, nothing changes
 	case "remove", "rmdir":
 		h, exists := s.Names[o.Dir][o.Name]
@@ -497,6 +499,9 @@ func (w *cWorld) exec(api API, o cOp) cRes {
 		return cRes{OK: r.Status == nt.NFS3_OK, Handle: string(r.Resok.Obj.Handle.Data), Fileid: uint64(r.Resok.Obj_attributes.Attributes.Fileid)}
 	case "createlong":
 		r := api.NFSPROC3_CREATE(nt.CREATE3args{Where: nt.Diropargs3{Dir: w.Dirs[o.Dir], Name: nt.Filename3(strings.Repeat("L", 300))}})
+		return cRes{OK: r.Status == nt.NFS3_OK}
+	case "renamelong":
+		r := api.NFSPROC3_RENAME(nt.RENAME3args{From: dop, To: nt.Diropargs3{Dir: w.Dirs[o.Dir], Name: nt.Filename3(strings.Repeat("L", 200))}})
 		return cRes{OK: r.Status == nt.NFS3_OK}
 	case "mkdir":
 		r := api.NFSPROC3_MKDIR(nt.MKDIR3args{Where: dop})
